@@ -90,6 +90,30 @@ pub fn run_roots(r: &mut Rec) {
             }
         }
     }
+    // roots whose fixpoint iteration raises a long candidate to the power n - 1: the multiplications inside run through the
+    // Toom-3 regime with factors of different lengths (s x s^2, s^2 x s^4, ...)
+    {
+        let mut cases: Vec<(usize, u32)> = vec![(90, 8)];
+        if r.thorough {
+            cases.extend([(257, 4), (150, 7), (60, 13)]);
+        }
+        for (len, n) in cases {
+            let mut d = digits(&mut rng, len, Pat::Random);
+            d[len - 1] &= 0xffff_ffff;           // top digit below 2^32: s^2 has 2 len - 1 digits
+            d[len - 1] |= 1;
+            let root = BigUint::from_bytes_le(&le_bytes(&d));
+            let p = Pow::pow(&root, n);
+            for (nm, v) in [("+ r", &p + &root), ("- 1", &p - 1u32)] {
+                if !r.case(&format!("long root {} digits ^{} {}", len, n, nm)) {
+                    continue;
+                }
+                // one call per value: the specification has to raise two 90-digit candidates to the n-th power to judge it
+                load_u(r, 0, &v.verif_raw().to_vec());
+                let ex = format!("\"sc\":{}", sc_list(&[n.sc()]));
+                r.u1("nth_root", "method", &ex, 0, 2, |a| a.nth_root(n));
+            }
+        }
+    }
     // a small odd value shifted left: few significant bits (exact in f64), long zero tails, the true root often within a hair
     // of the next integer - every shift from just below 2^64 to beyond the 53-bit window of a double's square root
     for (mi, m) in [3u64, 5, 7, 11, 0x1f_ffff, ((1 << 26) + 1) * ((1 << 26) + 1) - 1].into_iter().enumerate() {
@@ -254,6 +278,20 @@ pub fn run_pow(r: &mut Rec) {
                     pow_forms(r, e, rg.below(4));
                 }
             }
+        }
+    }
+    // unbalanced Toom-3 products inside the exponent loop: a four-digit base and exponents whose leading bits are 11..., so
+    // that the accumulator (> 256 digits) meets a squared base between one and a half and two times as long
+    for (name, d) in [("2^200+12345", vec![12345u64, 0, 0, 1 << 8]), ("random 4 digits", digits(&mut rng, 4, Pat::Random))] {
+        for e in if r.thorough { vec![193u32, 213, 220, 235, 250] } else { vec![213, 235] } {
+            if !r.case(&format!("unbalanced toom base {} ^{}", name, e)) {
+                continue;
+            }
+            load_u(r, 0, &d);
+            load_i_from_u(r, 0, if e % 2 == 1 { Sign::Minus } else { Sign::Plus }, 0);
+            let ex = format!("\"sc\":{}", sc_list(&[e.sc()]));
+            r.u1("pow", "ref_u32", &ex, 0, 2, |a| Pow::pow(a, e));
+            r.i1("pow", "inherent_u32", &ex, 0, 2, |a| a.pow(e));
         }
     }
     // long and sparse bases: the squarings and the multiply steps of the exponent loop then run through the Karatsuba and
@@ -449,6 +487,24 @@ pub fn run_gcd(r: &mut Rec) {
                 continue;
             }
             gcd_case(r, &format!("small {} {}", a, b), &if a == 0 { vec![] } else { vec![a] }, &if b == 0 { vec![] } else { vec![b] });
+        }
+    }
+    // a long gcd with a large common power of two: g = odd * 2^s with s >= 64 and an odd part of several digits, against
+    // small coprime cofactors (the final shift of Stein's algorithm moves a multi-digit value by whole digits)
+    for (gi, olen) in [2usize, 3, 5].into_iter().enumerate() {
+        for s in [64usize, 67, 128, 130, 191] {
+            if !r.thorough && (gi + s) % 2 == 1 {
+                continue;
+            }
+            let mut odd = digits(&mut rng, olen, Pat::Random);
+            odd[0] |= 1;
+            let mut g = vec![0u64; s / 64];
+            g.extend_from_slice(&odd);
+            let g = hint::mul(&hint::from_u64s(&g), &vec![1u32 << (s % 32)]);
+            let g = if (s % 64) >= 32 { hint::mul(&g, &vec![0u32, 1]) } else { g };
+            let a = from_n(&hint::mul(&g, &vec![3u32]));
+            let b = from_n(&hint::mul(&g, &vec![5u32]));
+            gcd_case(r, &format!("long gcd odd{} shift{}", olen, s), &a, &b);
         }
     }
     let n = if r.thorough { 400 } else { 90 };
